@@ -172,7 +172,7 @@ func c17Agree(name string, args []string, r rv, j map[string]any) string {
 						}
 						a, e1 := strconv.ParseFloat(v, 64)
 						b, e2 := strconv.ParseFloat(jv, 64)
-						if (e1 == nil && e2 == nil && a != b) || ((e1 != nil || e2 != nil) && v != jv) {
+						if v != jv && ((e1 == nil && e2 == nil && a != b) || ((e1 != nil || e2 != nil) && v != jv)) {
 							return fmt.Sprintf("item %d: field %q is %s in RESP and %s in JSON", i, n, v, jv)
 						}
 					}
@@ -329,6 +329,9 @@ func c17Setup(c *Cli, state string) map[string]string {
 		// ids / keys / values with control characters, DEL, NUL and invalid UTF-8
 		c.Do("SET", "kc\x01\x1b", "i\x7f\x00d", "FIELD", "f\x02", "3", "STRING", "v\x1b[0m\x7f")
 		c.Do("SET", "kc\x01\x1b", "bad\xffutf", "FIELD", "g\x0b", "4", "POINT", "1", "2")
+		// field values at the edges of the number type
+		c.Do("SET", "kn", "a", "FIELD", "nan", "NaN", "FIELD", "pinf", "+Inf", "FIELD", "ninf", "-Inf", "FIELD", "big", "1e308", "FIELD", "tiny", "1e-320", "FIELD", "negz", "-0", "FIELD", "int", "9007199254740993", "POINT", "1", "2")
+		c.Do("SET", "kn", "b", "FIELD", "nan", "1", "POINT", "1", "3")
 		// objects whose field names differ, so that the last object of a LIMIT page brings a new name
 		c.Do("SET", "kf", "a", "FIELD", "f1", "1", "POINT", "1", "1")
 		c.Do("SET", "kf", "b", "FIELD", "f2", "2", "POINT", "1", "2")
@@ -350,6 +353,7 @@ func c17Extra(state string) [][]string {
 		{"GET", "k1", "unié世"}, {"SEARCH", "k1"}, {"JGET", k, id}, {"PDEL", k, `i*`}, {"GET", "no\"such", "x"}, {"GET", k, "no\"id"}, {"FSET", k, "no\"id", "f", "1"},
 		{"BOGUS\"CMD", "x"}, {"SET", k, "x", "POINT", "bad\"num", "1"}, {"DELCHAN", `ch"q`},
 		{"SCAN", "kc\x01\x1b"}, {"SCAN", "kc\x01\x1b", "IDS"}, {"GET", "kc\x01\x1b", "i\x7f\x00d", "WITHFIELDS"}, {"GET", "kc\x01\x1b", "bad\xffutf"}, {"KEYS", "kc*"}, {"GET", "kc\x01\x1b", "no\x1bsuch"}, {"GET", "no\x7fkey", "x"}, {"ECHO\x01", "x"}, {"TYPE", "kc\x01\x1b"}, {"SEARCH", "kc\x01\x1b"},
+		{"GET", "kn", "a", "WITHFIELDS"}, {"SCAN", "kn"}, {"SCAN", "kn", "POINTS"}, {"FGET", "kn", "a", "nan"}, {"FGET", "kn", "a", "pinf"}, {"FGET", "kn", "a", "int"}, {"NEARBY", "kn", "POINT", "1", "2"}, {"SCAN", "kn", "WHERE", "nan", "0", "2"}, {"SCAN", "kn", "WHERE", "pinf", ">", "5"},
 		{"SCAN", "kf", "LIMIT", "1"}, {"SCAN", "kf", "LIMIT", "2"}, {"SCAN", "kf", "LIMIT", "3"}, {"SCAN", "kf", "CURSOR", "1", "LIMIT", "2"}, {"NEARBY", "kf", "LIMIT", "2", "POINT", "1", "1"}, {"WITHIN", "kf", "LIMIT", "3", "BOUNDS", "0", "0", "5", "5"}, {"SCAN", "kf", "LIMIT", "2", "POINTS"},
 		{"SCAN", "k%d"}, {"SCAN", "k%d", "IDS"}, {"SEARCH", "k%d"}, {"GET", "k%d", "100%", "WITHFIELDS"}, {"GET", "k%d", "%x", "WITHFIELDS", "POINT"}, {"FGET", "k%d", "100%", "g%"}, {"NEARBY", "k%d", "POINT", "1", "2"},
 		{"GET", "k%d", "no%sid"}, {"GET", "no%dkey", "x"}, {"BOGUS%s"}, {"TYPE", "k%d"}, {"STATS", "k%d"}, {"SET", "k%d", "y", "POINT", "bad%d", "1"}}
